@@ -200,7 +200,8 @@ Record dstate := mkD {
   d_list : list entry;                 (* m_ut_pex_list *)
   d_initial : pexmsg;                  (* m_ut_pex_initial *)
   d_delta : pexmsg;                    (* m_ut_pex_delta *)
-  d_used : list N                      (* peer indices that ever connected *)
+  d_used : list N;                     (* peer indices that ever connected *)
+  d_pexen : bool                       (* DownloadInfo::flag_pex_enabled: not private at download_add, then Download::set_pex_enabled *)
 }.
 
 Inductive op :=
@@ -208,10 +209,11 @@ Inductive op :=
 | Recv (i : N) (ms : list wmsg)        (* the peer sends these messages in one segment *)
 | Tick
 | Close (i : N)
-| SetBlocked (i : N) (b : bool).       (* Session::set_send_budget(peer, 0 / unlimited) *)
+| SetBlocked (i : N) (b : bool)        (* Session::set_send_budget(peer, 0 / unlimited) *)
+| SetPex (b : bool).                   (* the client calls Download::set_pex_enabled(b) *)
 
 Definition init (priv : bool) (m : list N) (minp : N) : dstate :=
-  mkD priv m minp true 0 [] [] None None [].
+  mkD priv m minp true 0 [] [] None None [] (negb priv).
 
 Definition msize (d : dstate) : N := N.of_nat (length (d_meta d)).
 
@@ -525,7 +527,7 @@ Definition do_peer_exchange (d : dstate) : dpe_result :=
       | [], [] => (d_initial d, None)
       | _, _ => (gen_pex list' [], gen_pex added' removed)
       end in
-    DpeOk (mkD (d_private d) (d_meta d) (d_minp d) act sp' conns' list' ini del (d_used d)).
+    DpeOk (mkD (d_private d) (d_meta d) (d_minp d) act sp' conns' list' ini del (d_used d) (d_pexen d)).
 
 (* ---- DownloadWrapper::receive_tick, PEX disabled (private) but still active *)
 Fixpoint disable_all (sp : N) (l : list conn) : list conn * N :=
@@ -569,7 +571,7 @@ Fixpoint ka_loop (fuel : nat) (sp : N) (l : list conn) : list conn * N * list ou
 Inductive step_result := SOk (d : dstate) (o : list out) | SInternalError | SUnmodelled.
 
 Definition set_conns (d : dstate) (l : list conn) (sp : N) : dstate :=
-  mkD (d_private d) (d_meta d) (d_minp d) (d_pex_active d) sp l (d_list d) (d_initial d) (d_delta d) (d_used d).
+  mkD (d_private d) (d_meta d) (d_minp d) (d_pex_active d) sp l (d_list d) (d_initial d) (d_delta d) (d_used d) (d_pexen d).
 
 Definition is_nil {A} (l : list A) : bool := match l with [] => true | _ => false end.
 Definition is_umsg (u : upstate) : bool := match u with UMsg _ => true | UIdle => false end.
@@ -620,10 +622,10 @@ Definition tick (fx : fixes) (d0 : dstate) : step_result :=
   match settle_all fx d00 ids [] with
   | SOk d o1 =>
     let r :=
-      if negb (d_private d) then do_peer_exchange d
+      if d_pexen d then do_peer_exchange d
       else if d_pex_active d then
         let '(l, sp) := disable_all (d_size_pex d) (d_conns d) in
-        DpeOk (mkD (d_private d) (d_meta d) (d_minp d) false sp l (d_list d) (d_initial d) (d_delta d) (d_used d))
+        DpeOk (mkD (d_private d) (d_meta d) (d_minp d) false sp l (d_list d) (d_initial d) (d_delta d) (d_used d) (d_pexen d))
       else DpeOk d in
     match r with
     | DpeInternalError => SInternalError
@@ -645,10 +647,10 @@ Definition step (fx : fixes) (d : dstate) (o : op) : step_result :=
     if existsb (N.eqb i) (d_used d) then SOk d []
     else
       (* Handshake::write_extension_handshake *)
-      let le := negb (d_private d) && d_pex_active d && (d_size_pex d <? Params.c20_max_size_pex) in
+      let le := d_pexen d && d_pex_active d && (d_size_pex d <? Params.c20_max_size_pex) in
       let sp := if le then d_size_pex d + 1 else d_size_pex d in
       SOk (mkD (d_private d) (d_meta d) (d_minp d) (d_pex_active d) sp (d_conns d ++ [default_conn i le])
-               (d_list d) (d_initial d) (d_delta d) (i :: d_used d))
+               (d_list d) (d_initial d) (d_delta d) (i :: d_used d) (d_pexen d))
           [OHs i le (msize d)]
   | Recv i ms =>
     match find_conn i (d_conns d) with
@@ -665,6 +667,12 @@ Definition step (fx : fixes) (d : dstate) (o : op) : step_result :=
       then SOk (set_conns d (erase_conn i (d_conns d)) (dec_if (x_le_pex (c_x c)) (d_size_pex d))) []
       else SUnmodelled
     end
+  | SetPex b =>
+    (* Download::set_pex_enabled: enabling goes through DownloadInfo::set_pex_enabled, which does
+       nothing for a private torrent; disabling clears the flag *)
+    let v := if b then (if d_private d then d_pexen d else true) else false in
+    SOk (mkD (d_private d) (d_meta d) (d_minp d) (d_pex_active d) (d_size_pex d) (d_conns d)
+             (d_list d) (d_initial d) (d_delta d) (d_used d) v) []
   | SetBlocked i b =>
     match find_conn i (d_conns d) with
     | None => SOk d []
